@@ -680,7 +680,10 @@ class Interp:
             return self.float_to_int(x)
         if isinstance(x, SBool):
             return ite(x, 1, 0)
-        return int(x)
+        try:
+            return int(x)
+        except (OverflowError, ValueError) as e:      # int(inf) / int(nan): the interpreted code raises on this path, as python and numba do
+            raise PathRaise(type(e), str(e))
 
     def b_float(self, x=0.0):
         if isinstance(x, Num):
